@@ -1,6 +1,7 @@
 import YaqsModel.Lemmas.Verdict
 import YaqsModel.Lemmas.MpoUpdate
 import YaqsModel.Lemmas.CRat
+import YaqsModel.Lemmas.CheckerEndToEnd
 import Mathlib.LinearAlgebra.Matrix.Trace
 import Mathlib.Data.Complex.Basic
 import Mathlib.Algebra.Star.Basic
@@ -26,6 +27,10 @@ Property theorems only (helper lemmas live in `Lemmas/Verdict.lean`).
   and proves that each update is the matrix product it is supposed to be.  The checker builds `U₁ · X · U₂ᴴ`
   (gates of the first circuit multiply from the left, adjoints of the gates of the second circuit from the right).
   What stays a hypothesis is the LAPACK SVD inside `decompose_theta` (`U diag(s) V = θ-matrix`, isometries — as in C09).
+* Part D (extension, namespace `Yaqs.CheckerE2E`, at the end) composes A–C: for circuits of one-qubit and nearest-neighbour
+  two-qubit gates and untruncated splits, `to_matrix()` of the chain `iterate` leaves is `U₁ · 1 · U₂ᴴ` as `2ⁿ × 2ⁿ` matrices
+  (`iterate_represents_product`), so `equivalence_checker.run` answers "equivalent" exactly when `f ≤ |tr(U₁ᴴ U₂)| / 2ⁿ`
+  (`checker_correct`, with `checker_equal_up_to_phase`, `checker_swap`, `checker_total`).  Its header lists what remains hypothesis.
 -/
 namespace Yaqs.Verdict
 
@@ -554,3 +559,386 @@ theorem materialised_loops_agree {K : Type} [CommSemiring K] (cj : K → K) (d n
 example : (updateThetaM CRat.conj 2 0 exA exB [exH] [exG]).isSome = true := by decide +kernel
 
 end Yaqs.MpoUpdate
+
+/-! ## Part D — end to end: for nearest-neighbour circuits and untruncated splits the checker's verdict is the verdict on `|tr(U₁ᴴ U₂)|/2ⁿ`
+
+  (extension xc04; helper lemmas in `Lemmas/CheckerEmbed.lean`, `Lemmas/CheckerEndToEnd.lean`; chain-level model of `iterate`
+  in `Model/CheckerChain.lean`.)  Parts A–C are composed:
+
+  * `embed1 d n p A`, `embed2 d n p q G` — the `dⁿ × dⁿ` matrix (rows / columns = configurations `Fin n → Fin d`) of a one-site /
+    two-site operator on given sites, identity elsewhere; `gateSem d n g qs` — the operator of a gate object placed on qubits `qs`;
+    `U (sem d n gateOf) c` (Part B's `U`) — the circuit's unitary: the product of its gates' operators in program order, later gates
+    on the left.
+  * `chainMat d n ts` — the operator of a tensor list (bond path sums; C04.29: the entries of `to_matrix()`).
+  * `CheckerChain.iterateMpo` — `mpo.identity(n); iterate(mpo, dag1, dag2, thr)` on tensors: the event list of Part B's `iterate`,
+    read as a sequence of `update_mpo` calls, each one Part C's `updateTheta` + `decomposeTheta`; `checkerRun` adds
+    `check_if_identity`.
+
+  **What the code builds, in which order**: `U₁ · 1 · U₂ᴴ` — gates of circuit 1 multiply the identity from the left in program order,
+  adjoints of the gates of circuit 2 from the right (C04.28).  The scalar `check_if_identity` compares with the fidelity is
+  `conj(tr(U₁ U₂ᴴ)) = tr(U₁ᴴ U₂)` (C04.30).
+
+  **What remains hypothesis** (each named in the statements):
+  * *no truncation* — `ExactSteps`: at every `update_mpo` the kept part `u[:, :keep] · diag(s[:keep]) · vh[:keep]` of the LAPACK SVD
+    reproduces the block handed to it (all singular values kept and `U diag(s) Vh = M`, or discarded weight 0).  With truncation
+    C04.17 `split_then_merge` bounds every single update by its discarded weight; the accumulation over updates is not formalised.
+  * *exact arithmetic* — the model computes in `K` (ℚ(i) in the tie), the code in binary64.
+  * *nearest-neighbour circuits* — `NNCircuit`: one-qubit gates and two-qubit gates on distinct neighbouring qubits; long-range
+    gates and swaps over a distance take the `apply_long_range_layer` branch (C04.21, tied by `t-lr`), which the chain-level model
+    does not contain (`stepsOf` returns `none`).  `gate.sites` / `gate.interaction` are what `convert_dag_to_tensor_algorithm`
+    sets (tied by `e2e`), and the two-site tensor is stored in site order (C18).
+  * qiskit's DAG layering is modelled by the wire-dependency front of the instruction list (trace-tied by `iter` / `e2e`).
+  * for `checker_equal_up_to_phase`: the second circuit's operator is unitary (every library gate is: C18).
+  * for `checker_total` (the run does not fail): one SVD result per `update_mpo` call. -/
+namespace Yaqs.CheckerE2E
+open Matrix Yaqs.MpoConv Yaqs.MpoUpdate Yaqs.Verdict Yaqs.CheckerChain
+open scoped Kronecker
+
+/-- **C04.23 (`embed_gate`: entries)** what "acts on the given sites and is the identity elsewhere" means: the entry of the
+    embedded operator between configurations `σ`, `τ` is the local entry when `σ` and `τ` agree on every other site, and `0`
+    otherwise — for a one-site operator on `p` and a two-site operator on distinct sites `p`, `q` (rows / columns `(σ_p, σ_q)`). -/
+theorem embed_gate_entry {K : Type} [CommSemiring K] (d n p q : Nat) (hp : p < n) (hq : q < n) (hpq : p ≠ q)
+    (A : Matrix (Fin d) (Fin d) K) (G : Matrix (Fin d × Fin d) (Fin d × Fin d) K) (σ τ : Fin n → Fin d) :
+    embed1 d n p A σ τ = (if (∀ k : Fin n, (k : Nat) ≠ p → σ k = τ k) then A (σ ⟨p, hp⟩) (τ ⟨p, hp⟩) else 0) ∧
+    embed2 d n p q G σ τ = (if (∀ k : Fin n, (k : Nat) ≠ p → (k : Nat) ≠ q → σ k = τ k) then
+      G (σ ⟨p, hp⟩, σ ⟨q, hq⟩) (τ ⟨p, hp⟩, τ ⟨q, hq⟩) else 0) :=
+  ⟨embed1_apply d n p hp A σ τ, embed2_apply d n p q hp hq hpq G σ τ⟩
+
+example : embed1 2 2 1 (!![(1 : CRat), 2; 3, 4]) ![0, 1] ![0, 0] = 4 - 1 ∧
+    embed1 2 2 1 (!![(1 : CRat), 2; 3, 4]) ![0, 1] ![1, 0] = 0 := by
+  constructor
+  · rw [(embed_gate_entry 2 2 1 0 (by decide) (by decide) (by decide) _ 1 _ _).1, if_pos (by decide)]
+    decide +kernel
+  · rw [(embed_gate_entry 2 2 1 0 (by decide) (by decide) (by decide) _ 1 _ _).1, if_neg (by decide)]
+
+/-- **C04.24 (`embed_mul_same_sites`)** on the same sites the embedding is multiplicative, maps `1` to `1` and commutes with the
+    adjoint — so the embedded ordered product of the gates of one temporal zone is the ordered product of the embedded gates. -/
+theorem embed_mul_same_sites {K : Type} [CommSemiring K] [StarRing K] (d n p q : Nat)
+    (G H : Matrix (Fin d × Fin d) (Fin d × Fin d) K) (A B : Matrix (Fin d) (Fin d) K) :
+    embed2 d n p q G * embed2 d n p q H = embed2 d n p q (G * H) ∧
+    embed1 d n p A * embed1 d n p B = embed1 d n p (A * B) ∧
+    embed2 d n p q (1 : Matrix (Fin d × Fin d) (Fin d × Fin d) K) = 1 ∧
+    (embed2 d n p q G)ᴴ = embed2 d n p q Gᴴ ∧ (embed1 d n p A)ᴴ = embed1 d n p Aᴴ ∧
+    ∀ Gs : List (Matrix (Fin d × Fin d) (Fin d × Fin d) K), embed2 d n p q Gs.prod = (Gs.map (embed2 d n p q)).prod :=
+  ⟨embed2_mul d n p q G H, embed1_mul d n p A B, embed2_one d n p q, embed2_conjTranspose d n p q G,
+    embed1_conjTranspose d n p A, embed2_list_prod d n p q⟩
+
+example (G H : Matrix (Fin 2 × Fin 2) (Fin 2 × Fin 2) CRat) :
+    embed2 2 5 2 3 G * embed2 2 5 2 3 H = embed2 2 5 2 3 (G * H) := (embed_mul_same_sites 2 5 2 3 G H 1 1).1
+
+/-- **C04.25 (`embed_commute_disjoint`)** operators embedded on disjoint sets of sites commute (one-site / one-site,
+    one-site / two-site, two-site / two-site), hence the operators of *any* two instructions on disjoint qubits commute,
+    whatever their gate objects — the hypothesis `hc` of C04.10a `lin_product` and C04.10 `iterate_result`. -/
+theorem embed_commute_disjoint {K : Type} [CommSemiring K] (d n : Nat) :
+    (∀ p q, p ≠ q → ∀ A B : Matrix (Fin d) (Fin d) K, Commute (embed1 d n p A) (embed1 d n q B)) ∧
+    (∀ r p q, r ≠ p → r ≠ q → ∀ (A : Matrix (Fin d) (Fin d) K) (G : Matrix (Fin d × Fin d) (Fin d × Fin d) K),
+      Commute (embed1 d n r A) (embed2 d n p q G)) ∧
+    (∀ p q r s, p ≠ r → p ≠ s → q ≠ r → q ≠ s → ∀ G H : Matrix (Fin d × Fin d) (Fin d × Fin d) K,
+      Commute (embed2 d n p q G) (embed2 d n r s H)) ∧
+    (∀ (gateOf : Instr → Gate K) (a b : Instr), disj a.qs b.qs = true → Commute (sem d n gateOf a) (sem d n gateOf b)) :=
+  ⟨fun p q h A B => embed_commute_11 d n p q h A B, fun r p q h1 h2 A G => embed_commute_12 d n r p q h1 h2 A G,
+    fun p q r s h1 h2 h3 h4 G H => embed_commute_22 d n p q r s h1 h2 h3 h4 G H, fun g a b h => sem_commute d n g a b h⟩
+
+example (G H : Matrix (Fin 2 × Fin 2) (Fin 2 × Fin 2) CRat) : Commute (embed2 2 4 0 1 G) (embed2 2 4 3 2 H) :=
+  (embed_commute_disjoint 2 4).2.2.1 0 1 3 2 (by decide) (by decide) (by decide) (by decide) G H
+
+/-- **C04.26 (`embed_gate` does not depend on the zone)** the two-site operator `apply_gate` uses for a gate handed over by the
+    temporal zone at `(m, m+1)` (`M ⊗ 1`, `1 ⊗ M` or the tensor as a matrix — C04.11), placed on that pair of sites, is the gate's
+    operator on the register `gateSem`: `gate.matrix` on its own site resp. `gate.tensor` on its two sites.  In particular a
+    one-qubit gate on qubit `q` gives the same operator whether it is applied in the zone `(q−1, q)` or `(q, q+1)`. -/
+theorem embed_gate_in_zone {K : Type} [CommSemiring K] (d n m : Nat) (hm : m + 1 < n) (g : Gate K) (qs : List Nat)
+    (h : InZone m g qs) : embed2 d n m (m + 1) (gateOp d g m) = gateSem d n g qs :=
+  embed2_gateOp d n m hm g qs h
+
+-- the one-site gate `exH'` on qubit 1 of a 3-qubit register, seen from the zone (0,1) and from the zone (1,2)
+private def exH' : Gate CRat := ⟨false, 1, [1], fun i j => ⟨(i : Nat), (2 * j + 1 : Nat)⟩, fun _ _ _ _ => 0⟩
+example : embed2 2 3 0 1 (gateOp 2 exH' 0) = embed2 2 3 1 2 (gateOp 2 exH' 1) := by
+  rw [embed_gate_in_zone 2 3 0 (by decide) exH' [1] ⟨rfl, rfl, Or.inl rfl, by decide, by decide⟩,
+    embed_gate_in_zone 2 3 1 (by decide) exH' [1] ⟨rfl, rfl, Or.inl rfl, by decide, by decide⟩]
+
+/-- **C04.27 (`chain_update_is_embed`)** C04.18 `update_mpo_chain` as a matrix identity: when nothing is discarded,
+    `to_matrix(updated chain) = embed(U₁ on the pair) · to_matrix(chain) · embed(U₂ᴴ on the pair)` with `U₁` the ordered product
+    of the zone of circuit 1 and `U₂ᴴ = (U₂)ᴴ` the product of the adjoints of the zone of circuit 2 — every chain length, every
+    position of the pair, all bond dimensions. -/
+theorem chain_update_is_embed {K : Type} [CommSemiring K] [StarRing K] (d : Nat) (pre post : List (Site K)) (A B : Site K)
+    (gs1 gs2 : List (Gate K)) (θ' : T6 K) (dec : Svd K) (thr : Rat)
+    (hθ : updateTheta star d pre.length A B gs1 gs2 = some θ')
+    (hspec : ∀ i, i < d * d * A.dl → ∀ j, j < d * d * B.dr →
+      thetaMatrix d A.dl B.dr θ' i j = truncProd (Rank.keepTheta dec.s thr) dec i j)
+    (hpre : lastDr 1 pre = A.dl) (n : Nat) (hn : n = pre.length + 2 + post.length) :
+    chainMat d n (pre ++ (decomposeTheta d A.dl B.dr dec thr).1 :: (decomposeTheta d A.dl B.dr dec thr).2 :: post)
+      = embed2 d n pre.length (pre.length + 1) ((gs1.map fun g => gateOp d g pre.length).reverse).prod
+        * chainMat d n (pre ++ A :: B :: post)
+        * embed2 d n pre.length (pre.length + 1) (gs2.map fun g => (gateOp d g pre.length)ᴴ).prod ∧
+    embed2 d n pre.length (pre.length + 1) (gs2.map fun g => (gateOp d g pre.length)ᴴ).prod
+      = (embed2 d n pre.length (pre.length + 1) ((gs2.map fun g => gateOp d g pre.length).reverse).prod)ᴴ := by
+  refine ⟨chainUpdate_embed d pre post A B gs1 gs2 θ' dec thr hθ hspec hpre n hn, ?_⟩
+  rw [embed2_conjTranspose, Matrix.conjTranspose_list_prod, List.map_reverse, List.reverse_reverse, List.map_map]
+  rfl
+
+/-- **C04.28a (`nn_event_list_is_updates`)** for circuits of one-qubit and nearest-neighbour two-qubit gates the `while` loop of
+    `iterate` never takes the long-range branch: its event list is a sequence of `update_mpo` calls `z1:m:… z2:m:…`, each at a pair
+    `(m, m+1)` inside the register, each consuming only one- or two-qubit gates of that pair whose gate objects carry the
+    instruction's qubits (so the assertions of `apply_gate` hold, C04.13, and C04.26 applies to every consumed gate). -/
+theorem nn_event_list_is_updates {K : Type} (n : Nat) (gate1 gate2 : Instr → Gate K) (c1 c2 : Dag) (fuel : Nat)
+    (evs : List Ev) (h1 : NNCircuit c1 gate1) (h2 : NNCircuit c2 gate2) (h : iterate n c1 c2 fuel = .done evs) :
+    2 ≤ n ∧ ∃ steps : List Step, stepsOf evs = some steps ∧ evs = steps.flatMap Step.evs ∧
+      ∀ s ∈ steps, StepOK n gate1 gate2 s :=
+  iterate_steps_ok n gate1 gate2 c1 c2 fuel evs h1 h2 h
+
+/-- **C04.28 (`iterate_represents_product`)** for two circuits of one-qubit and nearest-neighbour two-qubit gates, with every
+    split untruncated (`ExactSteps`), the tensor list `iterate` leaves behind — started from `mpo.identity(n)` — is a well-formed
+    chain of `n` tensors whose operator is
+
+        to_matrix(final chain) = U₁ · 1 · U₂ᴴ      (U₁ = circuit 1's gates in program order, later gates leftmost; same for U₂)
+
+    i.e. the gates of the *first* circuit multiply from the left, the adjoints of the gates of the *second* circuit from the
+    right.  Proof: induction over the `update_mpo` calls (`runSteps_represents`, each call by C04.27 + C04.26) gives
+    `runEvs sem₁ (star ∘ sem₂) 1 evs`; C04.10 `iterate_result` with C04.25 as its commutation hypothesis (the order `iterate`
+    consumes the gates in respects the wires) turns that into the product in program order. -/
+theorem iterate_represents_product {K : Type} [CommSemiring K] [StarRing K] (d n : Nat) (thr : Rat)
+    (gate1 gate2 : Instr → Gate K) (c1 c2 : Dag) (decs : List (Svd K)) (ts : List (Site K))
+    (h1 : NNCircuit c1 gate1) (h2 : NNCircuit c2 gate2)
+    (hx : ∀ evs steps, iterate n c1 c2 (c1.length + c2.length) = .done evs → stepsOf evs = some steps →
+      ExactSteps d thr gate1 gate2 (identityMpo n d) steps decs)
+    (h : iterateMpo star d thr gate1 gate2 n c1 c2 decs = some ts) :
+    GoodChain d n ts ∧ 2 ≤ n ∧
+    chainMat d n ts = U (sem d n gate1) c1 * 1 * star (U (sem d n gate2) c2) ∧
+    chainMat d n ts = U (sem d n gate1) c1 * (U (sem d n gate2) c2)ᴴ := by
+  obtain ⟨evs, hit, hn, hg, hm⟩ := iterateMpo_runEvs d n thr gate1 gate2 c1 c2 decs ts h1 h2 hx h
+  have hr := iterate_result (sem d n gate1) (sem d n gate2) (fun a b hab => sem_commute d n gate1 a b hab)
+    (fun a b hab => sem_commute d n gate2 a b hab) n c1 c2 _ evs hit 1
+  rw [hr] at hm
+  exact ⟨hg, hn, hm, by rw [hm, mul_one, star_eq_conjTranspose]⟩
+
+/-- **C04.29 (`chain_matrix_is_to_matrix`)** `chainMat` is the matrix the code's `to_matrix()` returns: on a well-formed chain
+    the contraction / reshape loop succeeds, gives a `dⁿ × dⁿ` array, and its entry at the Kronecker indices of two
+    configurations (site 0 most significant) is the `chainMat` entry (C07 `to_matrix_entry`). -/
+theorem chain_matrix_is_to_matrix {K : Type} [CommSemiring K] (d n : Nat) (hn : 0 < n) (ts : List (Site K))
+    (h : GoodChain d n ts) :
+    ∃ M, toMatrixCode ts = some M ∧ M.rows = d ^ n ∧ M.cols = d ^ n ∧
+      ∀ σ σ' : Fin n → Fin d, chainMat d n ts σ σ'
+        = M.e (Index.kronIdx (List.replicate n d) (cfg σ)) (Index.kronIdx (List.replicate n d) (cfg σ')) :=
+  chainMat_toMatrixCode d n hn ts h
+
+example : GoodChain 2 3 (identityMpo 3 2 : List (Site CRat)) ∧ chainMat 2 3 (identityMpo 3 2 : List (Site CRat)) = 1 :=
+  ⟨goodChain_identity 2 3, chainMat_identity 2 3⟩
+
+/-- **C04.30 (`checker_correct`)** hence, for nearest-neighbour circuits and untruncated splits, what
+    `equivalence_checker.run(c1, c2, thr, f)["equivalent"]` returns is the decision of `check_if_identity` on the scalar
+    `conj(tr(U₁ U₂ᴴ)) = tr(U₁ᴴ U₂)`:  **equivalent ⇔ f ≤ |tr(U₁ᴴ U₂)| / 2ⁿ** — stated exactly over ℚ(i) in squared form
+    (`f ≤ 0` or `(f·2ⁿ)² ≤ |tr|²`), and, whenever the modulus `t = |tr(U₁ᴴ U₂)|` is rational, as `verdict t n f` of Part A, to which
+    C04.1–C04.4 apply. -/
+theorem checker_correct (thr : Rat) (gate1 gate2 : Instr → Gate CRat) (n : Nat) (c1 c2 : Dag) (decs : List (Svd CRat))
+    (f : Rat) (b : Bool) (h1 : NNCircuit c1 gate1) (h2 : NNCircuit c2 gate2)
+    (hx : ∀ evs steps, iterate n c1 c2 (c1.length + c2.length) = .done evs → stepsOf evs = some steps →
+      ExactSteps 2 thr gate1 gate2 (identityMpo n 2) steps decs)
+    (h : checkerRun thr gate1 gate2 n c1 c2 decs f = some b) :
+    b = identityDecision (trace ((U (sem 2 n gate1) c1)ᴴ * U (sem 2 n gate2) c2)) n f ∧
+    (b = true ↔ ¬ (0 < f ∧ CRat.normSq (trace ((U (sem 2 n gate1) c1)ᴴ * U (sem 2 n gate2) c2))
+        < (f * (2 : Rat) ^ n) * (f * (2 : Rat) ^ n))) ∧
+    ∀ t : Rat, 0 ≤ t → t * t = CRat.normSq (trace ((U (sem 2 n gate1) c1)ᴴ * U (sem 2 n gate2) c2)) →
+      b = verdict t n f ∧ (b = true ↔ f ≤ t / (2 : Rat) ^ n) := by
+  obtain ⟨ts, hts, hdec⟩ := checkerRun_decision thr gate1 gate2 n c1 c2 decs f b h
+  obtain ⟨hg, hn, _, hm⟩ := iterate_represents_product 2 n thr gate1 gate2 c1 c2 decs ts h1 h2 hx hts
+  have hb := hdec hg (by omega)
+  have htr : star (trace (chainMat 2 n ts)) = trace ((U (sem 2 n gate1) c1)ᴴ * U (sem 2 n gate2) c2) := by
+    rw [hm, ← trace_conjTranspose, conjTranspose_mul, conjTranspose_conjTranspose, trace_mul_comm]
+  rw [htr] at hb
+  refine ⟨hb, ?_, fun t ht hsq => ?_⟩
+  · rw [hb]
+    unfold identityDecision
+    simp only [Bool.not_eq_true', Bool.and_eq_false_iff, decide_eq_false_iff_not, not_and_or]
+  · have := check_if_identity_decision _ n f t ht hsq
+    rw [← hb] at this
+    exact this
+
+/-- **C04.31 (`checker_equal_up_to_phase`)** corollary: if the two circuits' operators are equal up to a global phase
+    (`U₁ = c · U₂`, `|c| = 1`, `U₂` unitary) the checker answers "equivalent" for every requested fidelity `f ≤ 1`. -/
+theorem checker_equal_up_to_phase (thr : Rat) (gate1 gate2 : Instr → Gate CRat) (n : Nat) (c1 c2 : Dag)
+    (decs : List (Svd CRat)) (f : Rat) (b : Bool) (h1 : NNCircuit c1 gate1) (h2 : NNCircuit c2 gate2)
+    (hx : ∀ evs steps, iterate n c1 c2 (c1.length + c2.length) = .done evs → stepsOf evs = some steps →
+      ExactSteps 2 thr gate1 gate2 (identityMpo n 2) steps decs)
+    (h : checkerRun thr gate1 gate2 n c1 c2 decs f = some b)
+    (c : CRat) (hc : CRat.normSq c = 1) (hU : U (sem 2 n gate1) c1 = c • U (sem 2 n gate2) c2)
+    (hunit : (U (sem 2 n gate2) c2)ᴴ * U (sem 2 n gate2) c2 = 1) (hf : f ≤ 1) : b = true := by
+  obtain ⟨_, _, hv⟩ := checker_correct thr gate1 gate2 n c1 c2 decs f b h1 h2 hx h
+  have htr : trace ((U (sem 2 n gate1) c1)ᴴ * U (sem 2 n gate2) c2) = star c * ((2 ^ n : Nat) : CRat) := by
+    rw [hU, conjTranspose_smul, Matrix.smul_mul, hunit, trace_smul, trace_one_cfg, smul_eq_mul]
+  have hsq : ((2 : Rat) ^ n) * ((2 : Rat) ^ n)
+      = CRat.normSq (trace ((U (sem 2 n gate1) c1)ᴴ * U (sem 2 n gate2) c2)) := by
+    rw [htr, CRat.normSq_mul, CRat.normSq_star, hc, one_mul, CRat.normSq_natCast]
+    push_cast
+    ring
+  obtain ⟨hb, _⟩ := hv ((2 : Rat) ^ n) (by positivity) hsq
+  rw [hb]
+  exact verdict_equal_circuits _ n f rfl hf
+
+/-- **C04.32 (`checker_swap`)** corollary: the verdict is the same with the two circuits swapped — whatever the SVD results and
+    thresholds of the two runs, as long as neither truncates: `tr(U₂ᴴ U₁) = conj(tr(U₁ᴴ U₂))` (C04.5a `overlap_conj`) and the
+    decision only reads the modulus. -/
+theorem checker_swap (thr thr' : Rat) (gate1 gate2 : Instr → Gate CRat) (n : Nat) (c1 c2 : Dag) (decs decs' : List (Svd CRat))
+    (f : Rat) (b b' : Bool) (h1 : NNCircuit c1 gate1) (h2 : NNCircuit c2 gate2)
+    (hx : ∀ evs steps, iterate n c1 c2 (c1.length + c2.length) = .done evs → stepsOf evs = some steps →
+      ExactSteps 2 thr gate1 gate2 (identityMpo n 2) steps decs)
+    (hx' : ∀ evs steps, iterate n c2 c1 (c2.length + c1.length) = .done evs → stepsOf evs = some steps →
+      ExactSteps 2 thr' gate2 gate1 (identityMpo n 2) steps decs')
+    (h : checkerRun thr gate1 gate2 n c1 c2 decs f = some b)
+    (h' : checkerRun thr' gate2 gate1 n c2 c1 decs' f = some b') : b = b' := by
+  obtain ⟨hb, _, _⟩ := checker_correct thr gate1 gate2 n c1 c2 decs f b h1 h2 hx h
+  obtain ⟨hb', _, _⟩ := checker_correct thr' gate2 gate1 n c2 c1 decs' f b' h2 h1 hx' h'
+  rw [hb, hb', overlap_conj (U (sem 2 n gate1) c1) (U (sem 2 n gate2) c2), identityDecision_star]
+
+/-- **C04.33 (`checker_total`: the run does not fail)** for well-formed nearest-neighbour circuits on `n ≥ 2` qubits (`WF`: one- or
+    two-qubit gates on qubits `< n`) and one SVD result per `update_mpo` call, the tensor run of `iterate` returns a tensor list —
+    the loop terminates (C04.9), no assertion of `apply_gate` fires (C04.13 with C04.8c), every pair is inside the register — and,
+    when no split truncates, `equivalence_checker.run` returns a verdict; so C04.30 is not a statement about an empty set of runs. -/
+theorem checker_total (thr : Rat) (gate1 gate2 : Instr → Gate CRat) (n : Nat) (hn : 2 ≤ n) (c1 c2 : Dag)
+    (decs : List (Svd CRat)) (f : Rat) (hw1 : WF n c1) (hw2 : WF n c2) (h1 : NNCircuit c1 gate1) (h2 : NNCircuit c2 gate2)
+    (hdecs : ∀ evs steps, iterate n c1 c2 (c1.length + c2.length) = .done evs → stepsOf evs = some steps →
+      steps.length ≤ decs.length) :
+    (∃ ts, iterateMpo star 2 thr gate1 gate2 n c1 c2 decs = some ts ∧ ts.length = n) ∧
+    ((∀ evs steps, iterate n c1 c2 (c1.length + c2.length) = .done evs → stepsOf evs = some steps →
+        ExactSteps 2 thr gate1 gate2 (identityMpo n 2) steps decs) →
+      ∃ b, checkerRun thr gate1 gate2 n c1 c2 decs f = some b) := by
+  obtain ⟨evs, hit⟩ := iterate_terminates n hn c1 c2 hw1 hw2
+  obtain ⟨_, steps, hst, _, hok⟩ := iterate_steps_ok n gate1 gate2 c1 c2 _ evs h1 h2 hit
+  obtain ⟨ts, hts, hlen⟩ := runSteps_isSome star 2 n thr gate1 gate2 steps decs (identityMpo n 2) (by simp [identityMpo]) hok
+    (hdecs evs steps hit hst)
+  have hrun : iterateMpo star 2 thr gate1 gate2 n c1 c2 decs = some ts := by
+    simp only [iterateMpo, hit, hst, hts]
+  refine ⟨⟨ts, hrun, hlen⟩, fun hx => ?_⟩
+  obtain ⟨hg, _, _, _⟩ := iterate_represents_product 2 n thr gate1 gate2 c1 c2 decs ts h1 h2 hx hrun
+  have htr := identityTrace_eq ts (hg.wf (by omega)) hg.dims
+  have e : identityTrace CRat.conj ts = identityTrace star ts := rfl
+  refine ⟨identityDecision (star (pathTrace ts 0)) n f, ?_⟩
+  unfold checkerRun
+  rw [show iterateMpo CRat.conj 2 thr gate1 gate2 n c1 c2 decs = some ts from hrun]
+  dsimp only
+  rw [e, htr]
+
+/-! ### non-vacuity of C04.28 – C04.32: concrete pairs on two qubits over ℚ(i)
+
+  pair A: circuit 1 = a one-qubit gate on qubit 1, then a two-qubit gate on (1, 0); circuit 2 = a one-qubit gate on qubit 0; the
+  gate matrices are neither real nor symmetric nor unitary (C04.28, C04.30, C04.32 do not need unitarity).  pair B: `i·Y` on qubit 0
+  against `Y` on qubit 0 (equal up to the phase `i`).  In each run one `update_mpo` at (0, 1) consumes everything; its "SVD"
+  `1 · diag(1,1,1,1) · M` keeps all four values, so nothing is discarded. -/
+private def exMat : Nat → Nat → CRat := fun i j => ⟨(i : Nat), (2 * j + 1 : Nat)⟩
+private def exTen : T4 CRat := fun i j k l => ⟨(i + 2 * j + 3 * k : Nat), (l : Nat)⟩
+private def exGateOf (i : Instr) : Gate CRat := ⟨false, i.qs.length, i.qs, exMat, exTen⟩
+private def exC1 : Dag := mkDag [[1], [1, 0]]
+private def exC2 : Dag := mkDag [[0]]
+/-- the block `update_mpo` hands to the SVD in the single update of a two-qubit run -/
+private def exθ2 (g1 g2 : Instr → Gate CRat) (c1 c2 : Dag) : T6 CRat :=
+  (updateTheta star 2 0 (identitySite 2) (identitySite 2) (c1.map g1) (c2.map g2)).getD fun _ _ _ _ _ _ => 0
+private def exDec2 (θ : T6 CRat) : Svd CRat := ⟨fun i j => if i = j then 1 else 0, [1, 1, 1, 1], fun _ => 1, thetaMatrix 2 1 1 θ⟩
+
+private theorem exNN (g : Instr → Gate CRat) (hg : ∀ i, (g i).sites = i.qs ∧ (g i).interaction = i.qs.length) (c : Dag)
+    (h : ∀ i ∈ c, (i.qs.length = 1 ∨ i.qs.length = 2) ∧ i.qs.Nodup ∧ dist i.qs ≤ 2) :
+    NNCircuit c g := fun i hi => ⟨(h i hi).1, (h i hi).2.1, (h i hi).2.2, (hg i).1, (hg i).2⟩
+
+/-- the no-truncation hypothesis of C04.28 / C04.30 for a two-qubit run with the given SVD results -/
+private abbrev ExHyp (g1 g2 : Instr → Gate CRat) (c1 c2 : Dag) (decs : List (Svd CRat)) : Prop :=
+  ∀ evs steps, iterate 2 c1 c2 (c1.length + c2.length) = .done evs → stepsOf evs = some steps →
+    ExactSteps 2 (1 / 2) g1 g2 (identityMpo 2 2) steps decs
+
+private theorem exExact2 (g1 g2 : Instr → Gate CRat) (c1 c2 : Dag)
+    (e : iterate 2 c1 c2 (c1.length + c2.length) = .done [Ev.zone 1 0 c1, Ev.zone 2 0 c2])
+    (h0 : updateTheta star 2 0 (identitySite 2 : Site CRat) (identitySite 2) (c1.map g1) (c2.map g2) = some (exθ2 g1 g2 c1 c2))
+    (hd : ∀ i, i < 2 * 2 * 1 → ∀ j, j < 2 * 2 * 1 → thetaMatrix 2 1 1 (exθ2 g1 g2 c1 c2) i j
+      = truncProd (Rank.keepTheta (exDec2 (exθ2 g1 g2 c1 c2)).s (1 / 2)) (exDec2 (exθ2 g1 g2 c1 c2)) i j) :
+    ∀ evs steps, iterate 2 c1 c2 (c1.length + c2.length) = .done evs → stepsOf evs = some steps →
+      ExactSteps 2 (1 / 2) g1 g2 (identityMpo 2 2) steps [exDec2 (exθ2 g1 g2 c1 c2)] := by
+  intro evs steps hit hst
+  rw [e] at hit
+  cases hit
+  have hs : steps = [⟨0, c1, c2⟩] := by
+    simp [stepsOf] at hst
+    exact hst.symm
+  subst hs
+  refine ⟨?_, fun _ _ => trivial⟩
+  intro A B θ' hA hB hθ
+  have eA : A = identitySite 2 := by
+    simp [identityMpo] at hA
+    exact hA.symm
+  have eB : B = identitySite 2 := by
+    simp [identityMpo] at hB
+    exact hB.symm
+  subst eA eB
+  have eθ : θ' = exθ2 g1 g2 c1 c2 := (Option.some.inj (h0.symm.trans hθ)).symm
+  subst eθ
+  exact hd
+
+private theorem exExactA : ExHyp exGateOf exGateOf exC1 exC2 [exDec2 (exθ2 exGateOf exGateOf exC1 exC2)] :=
+  exExact2 exGateOf exGateOf exC1 exC2 (by decide +kernel) rfl (by decide +kernel)
+private theorem exExactA' : ExHyp exGateOf exGateOf exC2 exC1 [exDec2 (exθ2 exGateOf exGateOf exC2 exC1)] :=
+  exExact2 exGateOf exGateOf exC2 exC1 (by decide +kernel) rfl (by decide +kernel)
+
+example : NNCircuit exC1 exGateOf ∧ NNCircuit exC2 exGateOf :=
+  ⟨exNN _ (fun _ => ⟨rfl, rfl⟩) _ (by decide), exNN _ (fun _ => ⟨rfl, rfl⟩) _ (by decide)⟩
+
+-- C04.28a / C04.28: the run exists, and its chain is `U₁ · U₂ᴴ`
+example : 2 ≤ 2 ∧ ∃ steps : List Step, stepsOf [Ev.zone 1 0 exC1, Ev.zone 2 0 exC2] = some steps ∧
+    [Ev.zone 1 0 exC1, Ev.zone 2 0 exC2] = steps.flatMap Step.evs ∧ ∀ s ∈ steps, StepOK 2 exGateOf exGateOf s :=
+  nn_event_list_is_updates 2 exGateOf exGateOf exC1 exC2 3 _ (exNN _ (fun _ => ⟨rfl, rfl⟩) _ (by decide))
+    (exNN _ (fun _ => ⟨rfl, rfl⟩) _ (by decide)) (by decide +kernel)
+
+example : ∃ ts, iterateMpo star 2 (1 / 2) exGateOf exGateOf 2 exC1 exC2 [exDec2 (exθ2 exGateOf exGateOf exC1 exC2)] = some ts ∧
+    chainMat 2 2 ts = U (sem 2 2 exGateOf) exC1 * (U (sem 2 2 exGateOf) exC2)ᴴ :=
+  ⟨_, rfl, (iterate_represents_product 2 2 (1 / 2) exGateOf exGateOf exC1 exC2 _ _ (exNN _ (fun _ => ⟨rfl, rfl⟩) _ (by decide))
+    (exNN _ (fun _ => ⟨rfl, rfl⟩) _ (by decide)) exExactA rfl).2.2.2⟩
+
+-- C04.30: the verdict of that run
+example : ∃ b, checkerRun (1 / 2) exGateOf exGateOf 2 exC1 exC2 [exDec2 (exθ2 exGateOf exGateOf exC1 exC2)] (1 / 2) = some b ∧
+    b = identityDecision (trace ((U (sem 2 2 exGateOf) exC1)ᴴ * U (sem 2 2 exGateOf) exC2)) 2 (1 / 2) :=
+  ⟨_, rfl, (checker_correct (1 / 2) exGateOf exGateOf 2 exC1 exC2 _ (1 / 2) _ (exNN _ (fun _ => ⟨rfl, rfl⟩) _ (by decide))
+    (exNN _ (fun _ => ⟨rfl, rfl⟩) _ (by decide)) exExactA rfl).1⟩
+
+-- C04.32: the same pair in both argument orders
+example : ∃ b b', checkerRun (1 / 2) exGateOf exGateOf 2 exC1 exC2 [exDec2 (exθ2 exGateOf exGateOf exC1 exC2)] (1 / 2) = some b ∧
+    checkerRun (1 / 2) exGateOf exGateOf 2 exC2 exC1 [exDec2 (exθ2 exGateOf exGateOf exC2 exC1)] (1 / 2) = some b' ∧ b = b' :=
+  ⟨_, _, rfl, rfl, checker_swap (1 / 2) (1 / 2) exGateOf exGateOf 2 exC1 exC2 _ _ (1 / 2) _ _
+    (exNN _ (fun _ => ⟨rfl, rfl⟩) _ (by decide)) (exNN _ (fun _ => ⟨rfl, rfl⟩) _ (by decide)) exExactA exExactA' rfl rfl⟩
+
+-- C04.31: `i·Y` against `Y` on qubit 0 — equal up to the phase `i`, `Y` unitary
+private def exY : Matrix (Fin 2) (Fin 2) CRat := !![0, -CRat.I; CRat.I, 0]
+private def exYg (c : CRat) (i : Instr) : Gate CRat := ⟨false, i.qs.length, i.qs, fun a b => c * exY (Fin.ofNat 2 a) (Fin.ofNat 2 b), fun _ _ _ _ => 0⟩
+private theorem exExactB : ExHyp (exYg CRat.I) (exYg 1) exC2 exC2 [exDec2 (exθ2 (exYg CRat.I) (exYg 1) exC2 exC2)] :=
+  exExact2 (exYg CRat.I) (exYg 1) exC2 exC2 (by decide +kernel) rfl (by decide +kernel)
+private theorem exY_sem (c : CRat) : U (sem 2 2 (exYg c)) exC2 = c • embed1 2 2 0 exY := by
+  have h : gateMat1 2 (fun a b => c * exY (Fin.ofNat 2 a) (Fin.ofNat 2 b)) = c • exY := by
+    ext a b
+    fin_cases a <;> fin_cases b <;> rfl
+  have e : U (sem 2 2 (exYg c)) exC2 = embed1 2 2 0 (gateMat1 2 fun a b => c * exY (Fin.ofNat 2 a) (Fin.ofNat 2 b)) := by
+    show (([(⟨0, [0]⟩ : Instr)].map (sem 2 2 (exYg c))).reverse).prod = _
+    simp [sem, gateSem, exYg]
+  rw [e, h, embed1_smul 2 2 0 (by decide)]
+
+example : ∃ b, checkerRun (1 / 2) (exYg CRat.I) (exYg 1) 2 exC2 exC2 [exDec2 (exθ2 (exYg CRat.I) (exYg 1) exC2 exC2)] 1 = some b ∧
+    b = true := by
+  refine ⟨_, rfl, checker_equal_up_to_phase (1 / 2) (exYg CRat.I) (exYg 1) 2 exC2 exC2 _ 1 _
+    (exNN _ (fun _ => ⟨rfl, rfl⟩) _ (by decide)) (exNN _ (fun _ => ⟨rfl, rfl⟩) _ (by decide)) exExactB rfl CRat.I
+    (by decide +kernel) ?_ ?_ (le_refl 1)⟩
+  · rw [exY_sem, exY_sem, one_smul]
+  · rw [exY_sem, one_smul, embed1_conjTranspose, embed1_mul]
+    have : exYᴴ * exY = 1 := by
+      ext a b
+      fin_cases a <;> fin_cases b <;> decide +kernel
+    rw [this, embed1_one]
+
+-- C04.33: the hypotheses of `checker_total` on pair A (one `update_mpo`, one SVD result)
+example : (∃ ts, iterateMpo star 2 (1 / 2) exGateOf exGateOf 2 exC1 exC2 [exDec2 (exθ2 exGateOf exGateOf exC1 exC2)] = some ts ∧
+      ts.length = 2) ∧
+    ∃ b, checkerRun (1 / 2) exGateOf exGateOf 2 exC1 exC2 [exDec2 (exθ2 exGateOf exGateOf exC1 exC2)] (1 / 2) = some b := by
+  have h := checker_total (1 / 2) exGateOf exGateOf 2 (by decide) exC1 exC2 [exDec2 (exθ2 exGateOf exGateOf exC1 exC2)] (1 / 2)
+    (WF_of_wfb _ _ (by decide +kernel)) (WF_of_wfb _ _ (by decide +kernel)) (exNN _ (fun _ => ⟨rfl, rfl⟩) _ (by decide))
+    (exNN _ (fun _ => ⟨rfl, rfl⟩) _ (by decide))
+    (fun evs steps hit hst => by
+      rw [show iterate 2 exC1 exC2 (exC1.length + exC2.length) = .done [Ev.zone 1 0 exC1, Ev.zone 2 0 exC2] by
+        decide +kernel] at hit
+      cases hit
+      simp [stepsOf] at hst
+      simp [← hst])
+  exact ⟨h.1, h.2 exExactA⟩
+
+end Yaqs.CheckerE2E
